@@ -160,6 +160,7 @@ type PathResult struct {
 	EngineErr  string
 	Sample     string
 	NDCount    int
+	Trace      []WitnessVal
 }
 
 type HarnessResult struct {
@@ -183,6 +184,8 @@ type HarnessResult struct {
 	InternalSyms bool
 	Lossy        int
 	UnknownMsgs  []string
+	TraceSamples [][]WitnessVal
+	Params       map[string]int
 }
 
 var endNames = map[PathEndKind]string{EndNormal: "normal", EndInfeasible: "infeasible", EndAssumeFalse: "assume-false",
@@ -366,6 +369,10 @@ func (r *Runner) runPath(solver *Solver, base *baseState, pkg *ssa.Package, spec
 	}
 	in.callSSA(nil, fn, nil, nil)
 	res.End = EndNormal
+	if len(prefix)%3 == 0 && !in.usedInternal && in.lossyStrings == 0 && in.feasible() {
+		in.ensureModel()
+		res.Trace = in.witness(in.path.model)
+	}
 	return
 }
 
@@ -407,6 +414,7 @@ func (r *Runner) RunHarness(spec HarnessSpec, tier string) *HarnessResult {
 			params[k] = v
 		}
 	}
+	hr.Params = params
 	maxPaths := r.cfg.MaxPaths
 	if spec.MaxPaths > 0 {
 		maxPaths = spec.MaxPaths
@@ -521,6 +529,9 @@ func (r *Runner) RunHarness(spec HarnessSpec, tier string) *HarnessResult {
 						seenViol[v.Key] = true
 						hr.Violations = append(hr.Violations, v)
 					}
+				}
+				if res.Trace != nil && len(hr.TraceSamples) < r.cfg.TraceSamples {
+					hr.TraceSamples = append(hr.TraceSamples, res.Trace)
 				}
 				if len(hr.Samples) < 6 && (res.End == EndNormal || res.End == EndViolation) {
 					hr.Samples = append(hr.Samples, res.Sample)
